@@ -1,36 +1,49 @@
 #!/bin/bash
 # Self-test of the checker: applies each single-edit variant under
-# /verif/selftest/<prop>/*.diff (and /verif/seeded/*/patch.diff) to a scratch
-# copy of /repo, makes sure it still compiles, runs the property's check on the
-# copy and demands a VIOLATION. Usage: tools/selftest.sh [prop ...]
+# /verif/selftest/<prop>/*.diff (and /verif/seeded/*/patch.diff, /verif/seeded_refactored/*/patch.diff) to a
+# scratch copy of /repo, makes sure it still compiles, runs the property's check on the
+# copy and demands a VIOLATION. Usage: tools/selftest.sh [-j N] [prop ...]   (N variants at a time, default 8)
 set -u
 export GOFLAGS=-mod=mod GOPROXY=off GOSUMDB=off GOTOOLCHAIN=local
 V=/verif
+J=8; [ "${1:-}" = "-j" ] && { J=$2; shift 2; }
 props="$@"
-fail=0; n=0; det=0
 S=$(mktemp -d /tmp/gverif-selftest.XXXXXX)
 trap 'rm -rf "$S"' EXIT
-mkdir -p "$S/verif"; cp $V/known_findings.txt "$S/verif/" 2>/dev/null; cp $V/properties.jsonl "$S/verif/"
-list=$(ls $V/selftest/*/*.diff 2>/dev/null; for d in $V/seeded/*/ $V/seeded_refactored/*/; do [ -f "$d/patch.diff" ] && echo "$d/patch.diff"; done)
-for d in $list; do
-  if [[ "$d" == */seeded/* || "$d" == */seeded_refactored/* ]]; then
-    prop=$(python3 -c "import json,sys;print(json.load(open('$(dirname $d)/meta.json'))['property'])")
-    name=$(basename $(dirname $(dirname $d)))/$(basename $(dirname $d))
-  else
-    prop=$(basename $(dirname $d)); name=$prop/$(basename $d .diff)
-  fi
-  if [ -n "$props" ] && ! echo " $props " | grep -q " $prop "; then continue; fi
-  rm -rf "$S/repo"; mkdir -p "$S/repo"
-  rsync -a --exclude .git --exclude test /repo/ "$S/repo/"
-  if ! (cd "$S/repo" && patch -p1 -s --no-backup-if-mismatch < "$d" >/dev/null 2>&1); then echo "SELFTEST-BROKEN $name: patch does not apply"; fail=1; continue; fi
-  if ! (cd "$S/repo" && go build ./... >/dev/null 2>"$S/build.err"); then echo "SELFTEST-BROKEN $name: variant does not compile: $(head -3 $S/build.err)"; fail=1; continue; fi
-  n=$((n+1))
-  out=$(GVERIF_REPO="$S/repo" GVERIF_DIR="$S/verif" ${GVERIF_BIN:-$V/bin/gverif} check $prop 2>&1); code=$?
+BIN=${GVERIF_BIN:-$V/bin/gverif}
+one() {
+  d=$1; prop=$2; name=$3; S=$4; BIN=$5
+  T=$(mktemp -d $S/t.XXXXXX)
+  mkdir -p "$T/repo" "$T/verif"; cp /verif/known_findings.txt /verif/properties.jsonl "$T/verif/" 2>/dev/null
+  rsync -a --exclude .git --exclude test /repo/ "$T/repo/"
+  if ! (cd "$T/repo" && patch -p1 -s --no-backup-if-mismatch < "$d" >/dev/null 2>&1); then echo "SELFTEST-BROKEN $name: patch does not apply"; rm -rf "$T"; return; fi
+  if ! (cd "$T/repo" && go build ./... >/dev/null 2>"$T/build.err"); then echo "SELFTEST-BROKEN $name: variant does not compile: $(head -3 $T/build.err | tr '\n' ' ')"; rm -rf "$T"; return; fi
+  out=$(GVERIF_REPO="$T/repo" GVERIF_DIR="$T/verif" $BIN check $prop 2>&1); code=$?
   if [ $code -eq 1 ] && echo "$out" | grep -q "^VIOLATION property=$prop"; then
-    det=$((det+1)); echo "detected   $name: $(echo "$out" | grep FAIL | head -1 | cut -c1-220)"
+    echo "detected   $name: $(echo "$out" | grep FAIL | head -1 | cut -c1-220)"
   else
-    echo "MISSED     $name (exit $code)"; fail=1
+    echo "MISSED     $name (exit $code)"
   fi
-done
+  rm -rf "$T"
+}
+export -f one
+list=$(ls $V/selftest/*/*.diff 2>/dev/null; for d in $V/seeded/*/ $V/seeded_refactored/*/; do [ -f "$d/patch.diff" ] && echo "${d}patch.diff"; done)
+: > $S/jobs
+python3 - "$props" > $S/jobs <<'P'
+import sys,json,glob,os
+props=sys.argv[1].split()
+ds=sorted(glob.glob('/verif/selftest/*/*.diff'))+sorted(glob.glob('/verif/seeded/*/patch.diff'))+sorted(glob.glob('/verif/seeded_refactored/*/patch.diff'))
+for d in ds:
+    dd=os.path.dirname(d)
+    if '/selftest/' in d:
+        prop=os.path.basename(dd); name=prop+'/'+os.path.basename(d)[:-5]
+    else:
+        prop=json.load(open(dd+'/meta.json'))['property']; name=os.path.basename(os.path.dirname(dd))+'/'+os.path.basename(dd)
+    if props and prop not in props: continue
+    print(d,prop,name)
+P
+cat $S/jobs | xargs -P $J -L 1 bash -c 'one "$0" "$1" "$2" "'$S'" "'$BIN'"' | tee $S/out
+n=$(grep -c -E '^(detected|MISSED)' $S/out); det=$(grep -c '^detected' $S/out)
 echo "selftest: variants=$n detected=$det"
-exit $fail
+if grep -q -E '^(MISSED|SELFTEST-BROKEN)' $S/out; then exit 1; fi
+exit 0
